@@ -306,6 +306,9 @@ _amend('C02', 'A float quotient (mat / scalar, scalar / mat, mat /= scalar) must
 _amend('C17', 'Swizzle proxies as operands (operator form): scalar - / * swizzle and swizzle + - * / swizzle / vector in both operand orders give lane j = lhs_j OP rhs_j as an exact term.')
 _amend('C18', 'Undecided multiple paths of unsigned 32- / 64-bit types are refuted by exact evaluation of the derived term at corners that include multiples above half the range (modular arithmetic: every input with a representable answer is in the domain).')
 _amend('C19', 'The lowp vec3 specialisation of convertLinearToSRGB is the published root approximation c1 x^(1/2) + c2 x^(1/4) - c3 x^(1/8) - c4 x per component (constants as cited, s(1) = 1); its accuracy against the exact curve is not re-derived.')
+_amend('C10', 'Narrowing: a conversion to a narrower float format inside the term of a double result (a double value stored in a float temporary) refutes the entry - the normal forms read float arithmetic as exact and would not see it. The same test runs in the polynomial rules of C02 and in every rule built on spec.compare.')
+_amend('C14', 'A step term that is not a next-after chain on the component is evaluated exactly at sample values and refuted when it is not the n-th neighbour in the component\'s own format.')
+_amend('C20', 'The five multiple functions are also analysed on one-point boxes at both ends of the signed 32- / 64-bit ranges (x = max - 1 and min + 2 with m = 3, where the answer is representable).')
 _amend('C10', 'The aligned double matrix types of the SSE2 configuration are analysed in the quick tier as well (the aligned inverse(mat3) for double runs on the generic vec4 cross-product overload).')
 _amend('C17', 'The SIMD swizzle specialisations are instantiated for float, int and uint (and double under AVX2 in the thorough tier).')
 _amend('C15', 'The floor-based portable spellings of trunc and round (the pre-C++11 fallbacks) are read as the functions they are (exact identities), so those configuration pairs are proved rather than left undecided; the bit-pattern witness tries the half-way boundary inputs (predecessor of one half, odd integers of the last binade, signed zero).')
